@@ -39,7 +39,7 @@ type expectOrigin struct {
 
 // statusFor scripts the answer by the target: ".../fail-N/..." is answered 503 the first N times;
 // ".../setck/..." sets the cookie jar=<hit number>
-func (o *expectOrigin) statusFor(target string) string {
+func (o *expectOrigin) statusFor(target string, failOnce string) string {
 	o.mu.Lock()
 	defer o.mu.Unlock()
 	if o.hits == nil {
@@ -48,6 +48,12 @@ func (o *expectOrigin) statusFor(target string) string {
 	o.hits[target]++
 	k := o.hits[target]
 	status := "200 OK"
+	if failOnce != "" { // "X-Fail-Once: id": the first request carrying that id is answered 503, whatever its target
+		o.hits["once:"+failOnce]++
+		if o.hits["once:"+failOnce] == 1 {
+			status = "503 Service Unavailable"
+		}
+	}
 	for _, seg := range strings.Split(target, "/") {
 		if strings.HasPrefix(seg, "fail-") {
 			if n, err := strconv.Atoi(seg[5:]); err == nil && k <= n {
@@ -179,7 +185,11 @@ func (o *expectOrigin) serve(c net.Conn, seq int) {
 			return
 		}
 		if !answered {
-			c.Write([]byte(o.statusFor(obs.Target)))
+			once := ""
+			if v := obs.Get("X-Fail-Once"); len(v) > 0 {
+				once = v[0]
+			}
+			c.Write([]byte(o.statusFor(obs.Target, once)))
 		}
 	}
 }
